@@ -29,7 +29,15 @@ def run_case(case, repo, check_compiles):
     tmp = tempfile.mkdtemp(prefix="bklmut-", dir="/var/tmp")
     try:
         copy_sources(repo, tmp)
-        edits = case.get("edits") or [{"file": case["file"], "old": case["old"], "new": case["new"]}]
+        if case.get("patch"):
+            pr = subprocess.run(["git", "apply", "--unsafe-paths", "--directory", tmp, os.path.join(VERIF, case["patch"])], cwd="/", capture_output=True, text=True)
+            if pr.returncode != 0:
+                pr = subprocess.run(["patch", "-p1", "-s", "-i", os.path.join(VERIF, case["patch"])], cwd=tmp, capture_output=True, text=True)
+            if pr.returncode != 0:
+                return dict(case=case, status="skipped", detail="patch does not apply (tree diverged): " + (pr.stderr or pr.stdout)[-200:])
+            edits = []
+        else:
+            edits = case.get("edits") or [{"file": case["file"], "old": case["old"], "new": case["new"]}]
         for e in edits:
             path = os.path.join(tmp, e["file"])
             src = open(path).read()
